@@ -575,6 +575,17 @@ fn main() {
 '''
 
 
+def build_raw_native(g: Grammar, rust: str):
+    """Unshimmed emitted module + a main that runs `parse` on a kind string (no oracle tables):
+    usable for any grammar generate accepted, LALR(1) or not."""
+    parts = ['#![allow(dead_code, unused_variables, unused_mut, non_snake_case, unreachable_patterns, unused_imports)]\n']
+    parts.append('pub type BoxT<T> = std::boxed::Box<T>;\n')
+    parts.append('pub mod g {\n' + rust + walker_module(g) + '\n}\n')
+    parts.append(common_src(g, 1))
+    parts.append(NATIVE_MAIN % {'arms': '        usize::MAX => 0u8,', 'term_enum': g.term_enum})
+    return ''.join(parts)
+
+
 def build_step_source(g: Grammar, rust: str, mode='kani'):
     """Source with one reduce-step harness per (productive) rule.  Returns (text, meta)."""
     from extract import extract
